@@ -492,6 +492,7 @@ func (t *tr) callParts(c *ast.CallExpr) (pre, ev *node) {
 			t.expr(recv)
 		}
 		t.args(c)
+		t.fsRule(fn, c)
 	})
 	t.unmarshalRule(fn, c)
 	if ev := t.marshalRule(fn, c); ev != nil {
@@ -535,6 +536,34 @@ func (t *tr) afterCall(sp *spec, tags []tag, fn *types.Func, c *ast.CallExpr) {
 		}
 	}
 	t.unmarshalRule(fn, c)
+}
+
+// fsRule: the collection directories are shared between the calls of one handle exactly as the
+// index is: a call of package os / io/ioutil that changes the file system (create, truncate, write,
+// remove, mkdir) is a WRITE access to the location class "FS.dir", a call that reads it (open, stat,
+// list) a READ access. Two calls may then touch the files concurrently only under the conditions the
+// policy states for "FS.dir" (readers: the handle lock in any mode; writers: in write mode), which
+// is what keeps a reader from seeing a file between its truncation and its write.
+var fsWrites = map[string]bool{"os.OpenFile": true, "os.Create": true, "os.Remove": true, "os.RemoveAll": true,
+	"os.Mkdir": true, "os.MkdirAll": true, "os.Rename": true, "os.WriteFile": true, "os.Truncate": true,
+	"io/ioutil.WriteFile": true}
+var fsReads = map[string]bool{"os.Open": true, "os.Stat": true, "os.Lstat": true, "os.ReadDir": true, "os.ReadFile": true,
+	"io/ioutil.ReadFile": true, "io/ioutil.ReadDir": true}
+
+func (t *tr) fsRule(fn *types.Func, c *ast.CallExpr) {
+	if fn.Pkg() == nil {
+		return
+	}
+	if sig := fn.Type().(*types.Signature); sig.Recv() != nil {
+		return
+	}
+	full := fn.Pkg().Path() + "." + fn.Name()
+	switch {
+	case fsWrites[full]:
+		t.emit(&node{kind: nAcc, loc: "FS.dir", write: true, local: false, pos: c.Pos()})
+	case fsReads[full]:
+		t.emit(&node{kind: nAcc, loc: "FS.dir", write: false, local: false, pos: c.Pos()})
+	}
 }
 
 // unmarshalRule: after unmarshal(.., &x) the variable x designates an object
